@@ -2351,6 +2351,14 @@ impl InferContext {
                     Ok(Type::Record(kts).into_id_with_location(loc))
                 }
             }
+            Expr::ImcompleteRecord(kvs) => {
+                // check the given fields (their errors are collected); the record itself stays loosely
+                // typed because the missing fields are filled in from the callee's default values
+                kvs.iter().for_each(|RecordField { expr, .. }| {
+                    let _ = self.infer_type_unwrapping(*expr);
+                });
+                Ok(Type::Failure.into_id_with_location(loc))
+            }
             Expr::RecordUpdate(_, _) => {
                 // RecordUpdate should never reach type inference as it gets expanded
                 // to Block/Let/Assign expressions during syntax sugar conversion in convert_pronoun.rs
